@@ -410,8 +410,8 @@ pub fn run(args: &Args, rep: &mut Report) {
     let mut params = crate::c01::gen_params(&ctx, 0);
     params.max_spends = 4;
     params.max_conds = 3;
-    run_cases(args, "c05", n, rep, |i, rng, rep| {
-        if i % 8 == 7 {
+    run_cases(args, "c05", n, rep, |_i, rng, rep| {
+        if rng.chance(1, 8) {
             for _ in 0..8 {
                 case_refusals(&ctx, rng, rep);
             }
